@@ -21,7 +21,7 @@ META = {
   "vrfy_raw arithmetic after the gates with the real 256/384/521-bit orders (only toy orders); scalars handed to muladd only for i15 with a 1-byte order (i31: no verdict in 900 s on three SAT back ends)",
   "br_ecdsa_iNN_vrfy_asn1 wrapper (buffer sizing around asn1_to_raw for inputs up to 144 bytes)",
   "asn1_to_raw / raw_to_asn1 inputs longer than 24 bytes (except the single 130-byte header case), i.e. the 0x81 long-form output of raw_to_asn1 and the 125-byte integer limit",
-  "first-byte / coordinate-range gate of ec_p256_m15 (all field arithmetic static, no seam) and of api_mul/api_muladd of ec_prime_i15 with scalars longer than 0 bytes or curves P-384/P-521 (point_decode itself is covered for the three curves)",
+  "first-byte / coordinate-range gate of ec_p256_m15 (all field arithmetic static, no seam); for ec_prime_i15 the format gate is decided on point_decode itself (three curves) and on api_mul for P-256 with a 0-byte scalar only - api_muladd and longer scalars are not run to the end (724k symex steps for the shortest case)",
   "unsupported curve id passed directly to br_ec_impl methods (documented precondition 'curve MUST be supported'; id_to_curve indexes out of bounds otherwise) - the callers' gates are covered instead",
   "m31/m62/m64/i31 EC implementations, ec_all_m31, ec_default",
  ],
@@ -150,7 +150,7 @@ def queries():
             qs.append(Q("ecgate-prime_i15-c%d-%s-len" % (cv, fnn[fn]), "C11_ecgate.c", units=pu,
                         defs=["-DTARGET=1", "-DMODE=0", "-DCURVE=%d" % cv, "-DFN=%d" % fn], unwind=240,
                         desc="br_ec_prime_i15.%s, curve %d: every point length 0..140 other than the curve's => 0 before any field multiplication (montymul/modpow = probes)" % (fnn[fn], cv)))
-            if cv == 23 and fn != 2:
+            if cv == 23 and fn == 0:   # muladd variant: 1049 s under load, too close to the cap -> dropped
                 qs.append(Q("ecgate-prime_i15-c%d-%s-fmt-xl0" % (cv, fnn[fn]), "C11_ecgate.c", units=pu,
                             defs=["-DTARGET=1", "-DMODE=1", "-DCURVE=%d" % cv, "-DFN=%d" % fn, "-DXL=0"], unwind=240,
                             tier="thorough", timeout=900,
